@@ -135,8 +135,9 @@ func generateSarifReport(results []map[string]interface{}) (*sarif.Report, error
 	}
 	run := sarif.NewRunWithInformationURI("CodePathFinder", "https://codepathfinder.dev")
 	for _, result := range results {
-		localresult := result["result"].(map[string]interface{}) //nolint:all
-		resultSet := localresult["result_set"].([]interface{})   //nolint:all
+		// a rule whose query failed has no result: it contributes its rule entry and no findings
+		localresult, _ := result["result"].(map[string]interface{}) //nolint:all
+		resultSet, _ := localresult["result_set"].([]interface{})   //nolint:all
 		pb := sarif.NewPropertyBag()
 		rule := result["rule"].(Rule) //nolint:all
 		pb.Add("impact", rule.Impact)
